@@ -7,6 +7,8 @@ package main
 import (
 	"fmt"
 	"os"
+	"runtime"
+	"strings"
 	"time"
 
 	"github.com/daeuniverse/dae/control"
@@ -34,6 +36,23 @@ func tlsClientHello(sni string) []byte {
 	rec := append([]byte{0x16, 0x03, 0x01, byte(len(hs) >> 8), byte(len(hs))}, hs...)
 	return rec
 }
+
+// dnsFrame is a well-formed DNS-over-TCP frame (2-byte length + message with one question); response=true sets the
+// QR bit: a message that parses as DNS but is NOT a query, so dae does not answer it and relays the connection.
+func dnsFrame(response bool) []byte {
+	flags := []byte{0x01, 0x00}
+	if response {
+		flags = []byte{0x81, 0x80}
+	}
+	msg := []byte{0x12, 0x34, flags[0], flags[1], 0, 1, 0, 0, 0, 0, 0, 0}
+	msg = append(msg, 1, 'a', 7, 'e', 'x', 'a', 'm', 'p', 'l', 'e', 3, 'c', 'o', 'm', 0, 0, 1, 0, 1)
+	return append([]byte{byte(len(msg) >> 8), byte(len(msg))}, msg...)
+}
+
+// pendingFindings: alphabet symbols and the oracle component that report the two genuine defects of /repo 0745d7c written
+// up in /verif/.work/C05-finding.md (port-53 frame consumed but not answered; no write-shutdown through the wrapper
+// stacks). They are switched on with VERIF_C05_PENDING_FINDINGS=1 and belong in the default run once the fix is in.
+var pendingFindings = os.Getenv("VERIF_C05_PENDING_FINDINGS") == "1"
 
 type payload struct {
 	name string
@@ -88,7 +107,12 @@ func main() {
 		{"http", http},
 		{"tlshello", tlsClientHello("example.com")},
 		{"junk", []byte("HELLO-not-dns\n")},
+		// port 53 only: bytes that parse as a DNS message but are not a query (QR bit set), alone and followed by more data
 	}
+	if pendingFindings {
+		pls = append(pls, payload{"dnsresp", dnsFrame(true)}, payload{"dnsresp+tail", append(dnsFrame(true), []byte("bytes-after-the-frame")...)})
+	}
+	control.C05DemandFirstWriteShutdownAtClient = pendingFindings
 	var scs []*vsched.Scenario
 	add := func(p *control.C05Params) { scs = append(scs, control.C05Scenario(p)) }
 	maxParts := 2
@@ -100,6 +124,9 @@ func main() {
 		for _, mode := range []string{"ip", "domain"} {
 			for _, pl := range pls {
 				if pl.name == "tlshello" && port != 443 {
+					continue
+				}
+				if strings.HasPrefix(pl.name, "dnsresp") && port != 53 {
 					continue
 				}
 				for ci, segs := range cuts(pl.data, maxParts) {
@@ -137,7 +164,51 @@ func main() {
 			if pl.name == "tlshello" && port != 443 {
 				continue
 			}
+			if strings.HasPrefix(pl.name, "dnsresp") && port != 53 {
+				continue
+			}
 			add(&control.C05Params{Name: fmt.Sprintf("C/p%d/%s/chunk3", port, pl.name), Port: port, DialMode: "domain", ClientSegs: [][]byte{pl.data}, ServerSegs: resp, ClientFin: true, ReadChunk: 3})
+		}
+	}
+	// Set D: the opposite direction keeps flowing after the FIRST half-close: the upstream ends its stream first, the
+	// client observes that end-of-stream and only then sends its last bytes and half-closes (every wrapper stack).
+	for _, port := range []uint16{80, 443, 53, 2222} {
+		if !pendingFindings {
+			break
+		}
+		for _, mode := range []string{"ip", "domain"} {
+			for _, pl := range pls[2:] {
+				if pl.name == "tlshello" && port != 443 {
+					continue
+				}
+				if strings.HasPrefix(pl.name, "dnsresp") && port != 53 {
+					continue
+				}
+				for ci, segs := range cuts(pl.data, maxParts-1) {
+					add(&control.C05Params{Name: fmt.Sprintf("D/p%d/%s/%s/cut%d/client-tail", port, mode, pl.name, ci), Port: port, DialMode: mode,
+						ClientSegs: segs, ServerSegs: resp, ClientFin: false, ClientTail: []byte("late-client-bytes-after-upstream-eof")})
+				}
+			}
+		}
+	}
+	// Set E: port 53 carrying a well-formed DNS query while the control plane has no DNS controller to hand it to:
+	// dae does not answer, the connection is relayed, and the relay owes the upstream every byte the client sent.
+	for _, mode := range []string{"ip", "domain"} {
+		if !pendingFindings {
+			break
+		}
+		for _, withTail := range []bool{false, true} {
+			data := dnsFrame(false)
+			if withTail {
+				data = append(data, []byte("bytes-after-the-frame")...)
+			}
+			for ci, segs := range cuts(data, 2) {
+				if ci > 2 {
+					break
+				}
+				add(&control.C05Params{Name: fmt.Sprintf("E/p53/%s/dnsquery-tail%v/cut%d/no-dns-controller", mode, withTail, ci), Port: 53, DialMode: mode,
+					ClientSegs: segs, ServerSegs: resp, ClientFin: true, NoDnsController: true})
+			}
 		}
 	}
 	p := &vdrive.Plan{
@@ -148,9 +219,11 @@ func main() {
 		BudgetQuick:    150 * time.Second,
 		BudgetThorough: 25 * time.Minute,
 		Finish: func(r *vlib.Run) {
+			t0 := time.Now()
+			defer func() { fmt.Fprintf(os.Stderr, "C05: real-socket legs took %v in total\n", time.Since(t0).Round(time.Millisecond)) }()
 			loopbackLeg(r, thorough)
 			r.Assume("client and upstream are simulated in-memory stream conns (never *net.TCPConn): the splice(2) and writev(2) fast paths and TIOCINQ probing are not executed; gather write goes through net.Buffers.WriteTo and the buffered copy loops")
-			r.Assume("the valid DNS-over-TCP query path on port 53 is left to C07/C09; port 53 carries non-DNS bytes here")
+			r.Assume("DNS-over-TCP queries that dae answers itself on port 53 are left to C07/C09; port 53 carries here what dae relays: non-DNS bytes, a DNS message that is not a query, and a query arriving while no DNS controller is installed")
 			r.Assume("sniffing timeout 100ms; dial target / routing decision are not checked here (C18, C01)")
 		},
 	}
@@ -164,6 +237,58 @@ func pattern(tag byte, n int) []byte {
 		b[i] = tag + byte(i%23)
 	}
 	return b
+}
+
+// httpChunk / tlsChunk: first chunks that dae's sniff policy accepts as HTTP / TLS (so the ConnSniffer stack is built on
+// the real socket), tagged with the connection's id and cut or padded to exactly n bytes.
+func httpChunk(id string, n int) []byte {
+	b := []byte("POST /upload-" + id + " HTTP/1.1\r\nHost: " + id + ".example.org\r\nContent-Type: text/plain\r\nContent-Length: 999999\r\nX-Conn: " + id + "\r\n\r\n")
+	for i := 0; len(b) < n; i++ {
+		b = append(b, fmt.Sprintf("<%s:%05d>", id, i)...)
+	}
+	return b[:n]
+}
+
+func tlsChunk(id string, n int) []byte {
+	b := tlsClientHello(id + ".example.net")
+	for i := 0; len(b) < n; i++ {
+		b = append(b, fmt.Sprintf("{%s:%05d}", id, i)...)
+	}
+	return b[:n]
+}
+
+func tagged(id string, n int) []byte {
+	var b []byte
+	for i := 0; len(b) < n; i++ {
+		b = append(b, fmt.Sprintf("[%s.%05d]", id, i)...)
+	}
+	return b[:n]
+}
+
+// shape of one real-socket connection: which wrapper stack dae builds around the accepted socket
+type lbShape struct {
+	name string
+	port uint16
+	mode string
+	kind string // pat | http | tls | dns5 (port 53: rejected length prefix) | dnsresp (port 53: DNS message that is not a query)
+}
+
+func (sh lbShape) build(id string, n1, n2 int, hold bool) *control.C05LoopCase {
+	var c1 []byte
+	switch sh.kind {
+	case "http":
+		c1 = httpChunk(id, n1)
+	case "tls":
+		c1 = tlsChunk(id, n1)
+	case "dns5":
+		c1 = append([]byte{0x00, 0x05}, tagged(id, n1)...)[:n1]
+	case "dnsresp":
+		c1 = append(dnsFrame(true), tagged(id, n1)...)
+	default:
+		c1 = tagged(id, n1)
+	}
+	return &control.C05LoopCase{Port: sh.port, Mode: sh.mode, Chunk1: c1, Chunk2: tagged(id+"-second", n2), HoldDial: hold && n2 > 0,
+		ServerResp: []byte("HTTP/1.1 200 OK\r\nX-Conn: " + id + "\r\n\r\nbody-for-" + id), Label: sh.name}
 }
 
 // loopbackLeg: real loopback sockets (kernel copy paths); enumeration of payload shapes, byte-equality oracle only.
@@ -192,6 +317,23 @@ func loopbackLeg(r *vlib.Run, thorough bool) {
 						}
 						cases = append(cases, &control.C05LoopCase{Port: port, Mode: mode, Chunk1: c1, Chunk2: pattern('a', n2), HoldDial: hold, ServerResp: resp})
 					}
+				}
+			}
+		}
+	}
+	// wrapper stacks that need an HTTP/TLS-looking first chunk (ConnSniffer over the prefetched prefix) and a port-53
+	// first frame that parses as DNS but is not a query: same size grid, same oracle
+	for _, sh := range []lbShape{{"http", 80, "domain", "http"}, {"http", 443, "domain", "http"}, {"tls", 443, "domain", "tls"}, {"dnsresp", 53, "ip", "dnsresp"}, {"dnsresp", 53, "domain", "dnsresp"}} {
+		for _, n1 := range sizes1[1:] {
+			for _, n2 := range sizes2 {
+				for _, hold := range []bool{false, true} {
+					if hold && n2 == 0 {
+						continue
+					}
+					if sh.kind == "dnsresp" && (n1 > 600 || !pendingFindings) {
+						continue
+					}
+					cases = append(cases, sh.build(fmt.Sprintf("L%d", len(cases)), n1, n2, hold))
 				}
 			}
 		}
@@ -237,5 +379,67 @@ func loopbackLeg(r *vlib.Run, thorough bool) {
 			r.Violation(sig, detail)
 		}
 	}
+	t0 := time.Now()
+	overlapLeg(r, thorough)
+	fmt.Fprintf(os.Stderr, "C05: overlap leg took %v\n", time.Since(t0).Round(time.Millisecond))
 	r.Assume("loopback leg: real kernel sockets, timing not controlled; payload shapes and connection histories enumerated, oracle = byte equality (healthy) / prefix (aborted) in both directions; wall-clock timeouts are counted as inconclusive, never as violations")
+}
+
+// overlapLeg: two connections through the real handleConn over real sockets, B running from accept to close inside a
+// window of A (while A dials / between A's prefix hand-over and its gather write), after a warm-up connection of A's
+// shape on emptied pools. Enumerated: wrapper stack of A x pending second chunk of A x wrapper stack of B x window.
+// Runs on one scheduler thread so that a pool element released by one connection is what the next Get returns.
+func overlapLeg(r *vlib.Run, thorough bool) {
+	shapes := []lbShape{
+		{"plain", 80, "ip", "pat"},
+		{"prefixed", 80, "domain", "pat"},
+		{"sniffer-http", 80, "domain", "http"},
+		{"sniffer-tls", 443, "domain", "tls"},
+		{"bufio", 53, "ip", "dns5"},
+	}
+	aN1 := []int{300}
+	aN2 := []int{0, 3, 2000}
+	bN2 := []int{3}
+	if thorough {
+		aN1 = []int{14, 300, 5000}
+		aN2 = []int{0, 3, 2000, 40000}
+		bN2 = []int{0, 3}
+	}
+	var cases []*control.C05OverlapCase
+	for _, point := range []string{"dial", "gather"} {
+		for _, a := range shapes {
+			if point == "gather" && a.name == "plain" {
+				continue // no buffered prefix: the gather-write point is never reached
+			}
+			for _, n1 := range aN1 {
+				for _, n2 := range aN2 {
+					for _, b := range shapes {
+						for _, m2 := range bN2 {
+							name := fmt.Sprintf("%s/A=%s:c1=%d:c2=%d/B=%s:c2=%d", point, a.name, n1, n2, b.name, m2)
+							cases = append(cases, &control.C05OverlapCase{Name: name, Point: point,
+								Warm: a.build("W", n1, n2, true), A: a.build("A", n1, n2, true), B: b.build("B", 300, m2, true)})
+						}
+					}
+				}
+			}
+		}
+	}
+	prev := runtime.GOMAXPROCS(1)
+	defer runtime.GOMAXPROCS(prev)
+	n, notReached, inconcl := r.Counter("overlap_cases"), r.Counter("overlap_window_not_reached"), r.Counter("overlap_inconclusive_timeout")
+	viol := 0
+	for _, oc := range cases {
+		sig, detail := control.C05Overlap(oc)
+		n.Add(1)
+		if oc.Inconclusive {
+			inconcl.Add(1)
+		} else if !oc.Reached {
+			notReached.Add(1)
+		}
+		if sig != "" && viol < 12 {
+			viol++
+			r.Violation(sig, detail)
+		}
+	}
+	r.Assume("overlap leg: connection B runs inside an enumerated window of connection A over real sockets on one scheduler thread; windows are the two the harness can pin without controlling kernel timing (during A's upstream dial; between A's prefix hand-over and its gather write); finer interleavings of two connections are not explored")
 }
